@@ -274,6 +274,8 @@ Definition distribute (s : state) (ks kd : nat) (dwells : arr string) (a : dista
             let src_start := 1 + nrows * col in
             let src_end := src_start + nrows - 1 in
             let dw := flattenF dwells in
+            if existsb (fun x => match lw_index Ld x with None => true | Some _ => false end) dw
+            then (s, Some EReject) else
             match positions_of (w_dev w) (lw_geom Ld) dw with
             | Err e => (s, Some e)
             | Ok ps =>
